@@ -143,7 +143,8 @@ Inductive out : Type :=
 Definition out_of_res (r : res (option Z)) : out :=
   match r with Ret o => VOpt o | Panicked => VPanic | UB => VUB end.
 
-Definition step (s : it) (o : op) : out * it :=
+(* [f]: what Clone::clone makes of an element (identity for plain values) *)
+Definition step_gen (f : Z -> Z) (s : it) (o : op) : out * it :=
   match o with
   | ONext => let '(r, s', _) := next s in (out_of_res r, s')
   | ONextBack => let '(r, s', _) := next_back s in (out_of_res r, s')
@@ -154,22 +155,25 @@ Definition step (s : it) (o : op) : out * it :=
   | OAsSlice => (VList (as_slice s), s)
   | OWrite i v => let '(r, s') := write s i v in
                   (match r with Ret _ => VUnit | _ => VPanic end, s')
-  | OCloneObs => (VList (as_slice (clone_it (fun x => x) s)), s)
-  | OCloneSwap => (VUnit, clone_it (fun x => x) s)
-  | OFoldClone => (VList (fold_visit (clone_it (fun x => x) s)), s)
-  | ORfoldClone => (VList (rfold_visit (clone_it (fun x => x) s)), s)
-  | OCountClone => let '(r, _, _) := count_ None (clone_it (fun x => x) s) in
+  | OCloneObs => (VList (as_slice (clone_it f s)), s)
+  | OCloneSwap => (VUnit, clone_it f s)
+  | OFoldClone => (VList (fold_visit (clone_it f s)), s)
+  | ORfoldClone => (VList (rfold_visit (clone_it f s)), s)
+  | OCountClone => let '(r, _, _) := count_ None (clone_it f s) in
                    (match r with Ret n => VNum n | _ => VPanic end, s)
-  | OLastClone => let '(r, _, _) := last_ None (clone_it (fun x => x) s) in
+  | OLastClone => let '(r, _, _) := last_ None (clone_it f s) in
                   (out_of_res r, s)
   | ODebug => (VList (as_slice s), s)
   end.
 
-Fixpoint run (s : it) (ops : list op) : list out :=
+Definition step : it -> op -> out * it := step_gen (fun x => x).
+
+Fixpoint run_gen (f : Z -> Z) (s : it) (ops : list op) : list out :=
   match ops with
   | [] => []
-  | o :: r => let '(v, s') := step s o in v :: run s' r
+  | o :: r => let '(v, s') := step_gen f s o in v :: run_gen f s' r
   end.
+Definition run : it -> list op -> list out := run_gen (fun x => x).
 
 (* ---------- the abstract specification: a double-ended queue ---------- *)
 
@@ -184,7 +188,7 @@ Definition q_nth (q : list Z) (n : nat) : option Z * list Z := q_next (skipn n q
 Definition q_nth_back (q : list Z) (n : nat) : option Z * list Z :=
   q_next_back (firstn (length q - n) q).
 
-Definition q_step (q : list Z) (o : op) : out * list Z :=
+Definition q_step_gen (f : Z -> Z) (q : list Z) (o : op) : out * list Z :=
   match o with
   | ONext => let '(r, q') := q_next q in (VOpt r, q')
   | ONextBack => let '(r, q') := q_next_back q in (VOpt r, q')
@@ -192,19 +196,23 @@ Definition q_step (q : list Z) (o : op) : out * list Z :=
   | ONthBack n => let '(r, q') := q_nth_back q (Z.to_nat n) in (VOpt r, q')
   | OLen => (VNum (length q), q)
   | OSizeHint => (VHint (length q) (length q), q)
-  | OAsSlice | OCloneObs | OFoldClone | ODebug => (VList q, q)
+  | OAsSlice | ODebug => (VList q, q)
+  | OCloneObs | OFoldClone => (VList (map f q), q)
   | OWrite i v => if i <? length q then (VUnit, upd i v q) else (VPanic, q)
-  | OCloneSwap => (VUnit, q)
-  | ORfoldClone => (VList (rev q), q)
+  | OCloneSwap => (VUnit, map f q)
+  | ORfoldClone => (VList (rev (map f q)), q)
   | OCountClone => (VNum (length q), q)
-  | OLastClone => (VOpt (fst (q_next_back q)), q)
+  | OLastClone => (VOpt (fst (q_next_back (map f q))), q)
   end.
 
-Fixpoint q_run (q : list Z) (ops : list op) : list out :=
+Definition q_step : list Z -> op -> out * list Z := q_step_gen (fun x => x).
+
+Fixpoint q_run_gen (f : Z -> Z) (q : list Z) (ops : list op) : list out :=
   match ops with
   | [] => []
-  | o :: r => let '(v, q') := q_step q o in v :: q_run q' r
+  | o :: r => let '(v, q') := q_step_gen f q o in v :: q_run_gen f q' r
   end.
+Definition q_run : list Z -> list op -> list out := q_run_gen (fun x => x).
 
 (* ---------- histories with a panicking destructor (C05) ----------
    The caller catches every unwind and keeps using the iterator; finally the
